@@ -675,70 +675,100 @@ func deepCopies(h *ssa.Function) bool {
 	prm := h.Params[0]
 	madeMap, madeSlice := false, false
 	ok := true
+	// every update of the fresh map stores a recursive copy (a call of h)
+	freshMap := func(x *ssa.MakeMap) bool {
+		nUpd, good := 0, true
+		for _, ref := range core.Refs(x) {
+			if mu, isMU := ref.(*ssa.MapUpdate); isMU && mu.Map == ssa.Value(x) {
+				nUpd++
+				c, isC := mu.Value.(*ssa.Call)
+				if !isC || core.StaticCallee(c) != h {
+					good = false
+				}
+			}
+		}
+		return good && nUpd > 0
+	}
+	// the fresh slice is filled element by element with recursive copies
+	freshSlice := func(x *ssa.MakeSlice) bool {
+		nElem, good := 0, true
+		for _, ref := range core.Refs(x) {
+			// copy(out, val) fills the fresh slice with the very elements of the original: shallow
+			if cc, isCall := ref.(*ssa.Call); isCall {
+				if b, isB := cc.Call.Value.(*ssa.Builtin); isB && b.Name() == "copy" {
+					good = false
+				}
+			}
+			if ia, isIA := ref.(*ssa.IndexAddr); isIA {
+				for _, r2 := range core.Refs(ia) {
+					if st, isSt := r2.(*ssa.Store); isSt && st.Addr == ssa.Value(ia) {
+						nElem++
+						c, isC := st.Val.(*ssa.Call)
+						if !isC || core.StaticCallee(c) != h {
+							good = false
+						}
+					}
+				}
+			}
+		}
+		return good && nElem > 0 // nothing stored element by element: the elements are not copied recursively
+	}
+	var retVal func(v ssa.Value, inHelper bool)
+	retVal = func(v ssa.Value, inHelper bool) {
+		for {
+			if mi, isMI := v.(*ssa.MakeInterface); isMI {
+				v = mi.X
+				continue
+			}
+			if ct, isCT := v.(*ssa.ChangeType); isCT {
+				v = ct.X
+				continue
+			}
+			break
+		}
+		switch x := v.(type) {
+		case *ssa.MakeMap:
+			madeMap = true
+			if !freshMap(x) {
+				ok = false
+			}
+		case *ssa.MakeSlice:
+			madeSlice = true
+			if !freshSlice(x) {
+				ok = false
+			}
+		case *ssa.Call:
+			// an arm moved into a helper of one parameter: it receives the argument narrowed to the container type
+			// and returns a container made in its own activation, filled by calls of h
+			g := core.StaticCallee(x)
+			if inHelper || g == nil || g == h || g.Pkg != h.Pkg || len(g.Params) != 1 || len(x.Call.Args) != 1 || len(g.Blocks) == 0 || g.Signature.Results().Len() != 1 {
+				ok = false
+				return
+			}
+			a := x.Call.Args[0]
+			if ex, isEx := a.(*ssa.Extract); isEx && ex.Index == 0 {
+				a = ex.Tuple
+			}
+			if ta, isTA := a.(*ssa.TypeAssert); !isTA || ta.X != ssa.Value(prm) {
+				ok = false
+				return
+			}
+			for _, gb := range g.Blocks {
+				if ret, isRet := gb.Instrs[len(gb.Instrs)-1].(*ssa.Return); isRet {
+					retVal(ret.Results[0], true)
+				}
+			}
+		default:
+			ok = false
+		}
+	}
 	for _, b := range h.Blocks {
 		ret, isRet := b.Instrs[len(b.Instrs)-1].(*ssa.Return)
 		if !isRet {
 			continue
 		}
 		v := ret.Results[0]
-		if mi, isMI := v.(*ssa.MakeInterface); isMI {
-			v = mi.X
-		}
-		switch x := v.(type) {
-		case *ssa.MakeMap:
-			madeMap = true
-			nUpd := 0
-			for _, ref := range core.Refs(x) {
-				if mu, isMU := ref.(*ssa.MapUpdate); isMU && mu.Map == ssa.Value(x) {
-					nUpd++
-				}
-			}
-			if nUpd == 0 {
-				ok = false
-			}
-			// every update of the fresh map stores a recursive copy
-			for _, ref := range core.Refs(x) {
-				if mu, isMU := ref.(*ssa.MapUpdate); isMU && mu.Map == ssa.Value(x) {
-					c, isC := mu.Value.(*ssa.Call)
-					if !isC || core.StaticCallee(c) != h {
-						ok = false
-					}
-				}
-			}
-		case *ssa.MakeSlice:
-			madeSlice = true
-			nElem := 0
-			for _, ref := range core.Refs(x) {
-				// copy(out, val) fills the fresh slice with the very elements of the original: shallow
-				if cc, isCall := ref.(*ssa.Call); isCall {
-					if b, isB := cc.Call.Value.(*ssa.Builtin); isB && b.Name() == "copy" {
-						ok = false
-					}
-				}
-				if ia, isIA := ref.(*ssa.IndexAddr); isIA {
-					for _, r2 := range core.Refs(ia) {
-						if st, isSt := r2.(*ssa.Store); isSt && st.Addr == ssa.Value(ia) {
-							nElem++
-						}
-					}
-				}
-			}
-			if nElem == 0 {
-				ok = false // nothing is ever stored element by element: the elements are not copied recursively
-			}
-			for _, ref := range core.Refs(x) {
-				if ia, isIA := ref.(*ssa.IndexAddr); isIA {
-					for _, r2 := range core.Refs(ia) {
-						if st, isSt := r2.(*ssa.Store); isSt && st.Addr == ssa.Value(ia) {
-							c, isC := st.Val.(*ssa.Call)
-							if !isC || core.StaticCallee(c) != h {
-								ok = false
-							}
-						}
-					}
-				}
-			}
-		case *ssa.Parameter:
+		if x, isP := v.(*ssa.Parameter); isP {
 			if x != prm {
 				ok = false
 			}
@@ -757,9 +787,9 @@ func deepCopies(h *ssa.Function) bool {
 			if failed < 2 {
 				ok = false
 			}
-		default:
-			ok = false
+			continue
 		}
+		retVal(v, false)
 	}
 	return ok && madeMap && madeSlice
 }
@@ -811,34 +841,98 @@ func RefBlind(p *core.Prog, r *core.Report) {
 		n++
 		key := core.FuncName(f) + ":Default"
 		resolved := false
-		core.EachInstr(f, func(i ssa.Instruction) {
-			c, ok := i.(*ssa.Call)
-			if !ok {
-				return
-			}
-			g := core.StaticCallee(c)
-			if g == nil || core.QualName(g) != "spec.ExpandSchema" || len(c.Call.Args) == 0 {
-				return
-			}
-			if c.Call.Args[0] != scratch {
+		// the calls of fn that resolve the reference of the schema v: spec.ExpandSchema(v, …) under a test of a
+		// reference, or a helper of the package that receives v and does so (the test may sit on either side)
+		var resolvers func(fn *ssa.Function, v ssa.Value, d int, tested bool) []*ssa.Call
+		resolvers = func(fn *ssa.Function, v ssa.Value, d int, tested bool) []*ssa.Call {
+			var out []*ssa.Call
+			same := func(a ssa.Value) bool {
+				if a == v {
+					return true
+				}
 				// the scratch pointer lives in a cell (a deferred closure releases it): two loads of the same cell
-				pa, okA := core.Path(c.Call.Args[0])
-				pb, okB := core.Path(scratch)
-				if !okA || !okB || pa != pb {
+				pa, okA := core.Path(a)
+				pb, okB := core.Path(v)
+				return okA && okB && pa == pb
+			}
+			core.EachInstr(fn, func(i ssa.Instruction) {
+				c, ok := i.(*ssa.Call)
+				if !ok {
 					return
 				}
-			}
-			// under a test of the scratch schema's reference, and on the way to the Default test
-			refTest := false
-			for _, cd := range core.ControlConds(c.Block()) {
-				if strings.Contains(condAtom(cd), "Ref") {
-					refTest = true
+				g := core.StaticCallee(c)
+				if g == nil || len(c.Call.Args) == 0 {
+					return
+				}
+				refTest := tested
+				for _, cd := range core.ControlConds(c.Block()) {
+					if k, isK := cd.Value.(*ssa.Const); isK && k.Value != nil && (k.Value.ExactString() == "true") != cd.Sense {
+						return // behind a condition that is constantly the other way: never executed
+					}
+					if strings.Contains(condAtom(cd), "Ref") {
+						// on the side where the reference is there: `ref != ""` held, or `ref == ""` failed (any other
+						// shape of the test is taken as it is)
+						if bo, isBo := cd.Value.(*ssa.BinOp); isBo && (bo.Op == token.EQL || bo.Op == token.NEQ) {
+							kx, xIsK := bo.X.(*ssa.Const)
+							ky, yIsK := bo.Y.(*ssa.Const)
+							empty := (xIsK && kx.Value != nil && kx.Value.ExactString() == `""`) || (yIsK && ky.Value != nil && ky.Value.ExactString() == `""`)
+							if empty && (bo.Op == token.NEQ) != cd.Sense {
+								continue // the branch taken when there is no reference
+							}
+						}
+						refTest = true
+					}
+				}
+				if core.QualName(g) == "spec.ExpandSchema" {
+					if same(c.Call.Args[0]) && refTest {
+						out = append(out, c)
+					}
+					return
+				}
+				if d >= 2 || !p.InSubject(g) || len(g.Blocks) == 0 || len(g.Params) != len(c.Call.Args) {
+					return
+				}
+				for j, a := range c.Call.Args {
+					if same(a) && len(resolvers(g, g.Params[j], d+1, refTest)) > 0 {
+						out = append(out, c)
+					}
+				}
+			})
+			return out
+		}
+		for _, c := range resolvers(f, scratch, 0, false) {
+			// on the way to the Default test — in the same iteration, and along the edge on which the resolution
+			// succeeded (a `continue` on success leaves the default of every resolvable reference unread)
+			starts := resolutionSucceeded(c)
+			if starts == nil {
+				starts = []*ssa.BasicBlock{c.Block()}
+				if c.Block() == defRead.Block() {
+					resolved = true
 				}
 			}
-			if refTest && core.Reaches(c, defRead) {
-				resolved = true
+			seen := map[*ssa.BasicBlock]bool{}
+			var stack []*ssa.BasicBlock
+			for _, st := range starts {
+				if st == c.Block() {
+					stack = append(stack, st.Succs...)
+				} else {
+					stack = append(stack, st)
+				}
 			}
-		})
+			for len(stack) > 0 {
+				x := stack[len(stack)-1]
+				stack = stack[:len(stack)-1]
+				if seen[x] || (x != c.Block() && x.Dominates(c.Block())) {
+					continue // not through the head of the loop: that is the next member
+				}
+				seen[x] = true
+				if x == defRead.Block() {
+					resolved = true
+					break
+				}
+				stack = append(stack, x.Succs...)
+			}
+		}
 		if resolved {
 			r.OK(rule, key, p.Pos(rec.Pos()), "a referenced property schema is resolved on the scratch copy before its default is looked at")
 		} else {
@@ -847,4 +941,84 @@ func RefBlind(p *core.Prog, r *core.Report) {
 	}
 	r.Count("absent_default_sites", n)
 	r.Floor("absent_default_sites", 1)
+}
+
+// resolutionSucceeded: the blocks entered when the resolution request c is known to have succeeded — the
+// `err == nil` side of the test of its error result, or, for a helper of the package answering with a boolean
+// whose polarity can be read off its returns (`return spec.ExpandSchema(…) == nil`), the matching side of the test
+// of that boolean. nil when the outcome is not tested in a recognised way (then plain reachability is used).
+func resolutionSucceeded(c *ssa.Call) []*ssa.BasicBlock {
+	var out []*ssa.BasicBlock
+	isBool := false
+	if b, ok := c.Type().Underlying().(*types.Basic); ok && b.Kind() == types.Bool {
+		isBool = true
+	}
+	if !isBool {
+		for _, ref := range core.Refs(c) {
+			bo, ok := ref.(*ssa.BinOp)
+			if !ok || (bo.Op != token.EQL && bo.Op != token.NEQ) || !(core.IsNilConst(bo.X) || core.IsNilConst(bo.Y)) {
+				continue
+			}
+			for _, r2 := range core.Refs(bo) {
+				if ifi, ok := r2.(*ssa.If); ok && ifi.Cond == ssa.Value(bo) {
+					if bo.Op == token.EQL {
+						out = append(out, ifi.Block().Succs[0])
+					} else {
+						out = append(out, ifi.Block().Succs[1])
+					}
+				}
+			}
+		}
+		return out
+	}
+	g := core.StaticCallee(c)
+	if g == nil || len(g.Blocks) == 0 {
+		return nil
+	}
+	// polarity: what the helper answers when the request inside it succeeded
+	pol, known := false, false
+	for _, b := range g.Blocks {
+		ret, ok := b.Instrs[len(b.Instrs)-1].(*ssa.Return)
+		if !ok || len(ret.Results) != 1 {
+			continue
+		}
+		vals := []ssa.Value{ret.Results[0]}
+		if ph, isPhi := ret.Results[0].(*ssa.Phi); isPhi {
+			vals = ph.Edges
+		}
+		for _, v := range vals {
+			bo, ok := v.(*ssa.BinOp)
+			if !ok || (bo.Op != token.EQL && bo.Op != token.NEQ) || !(core.IsNilConst(bo.X) || core.IsNilConst(bo.Y)) {
+				continue
+			}
+			inner, isCall := bo.X.(*ssa.Call)
+			if !isCall {
+				inner, isCall = bo.Y.(*ssa.Call)
+			}
+			if !isCall {
+				continue
+			}
+			if h := core.StaticCallee(inner); h == nil || core.QualName(h) != "spec.ExpandSchema" {
+				continue
+			}
+			p := bo.Op == token.EQL
+			if known && p != pol {
+				return nil
+			}
+			pol, known = p, true
+		}
+	}
+	if !known {
+		return nil
+	}
+	for _, ref := range core.Refs(c) {
+		if ifi, ok := ref.(*ssa.If); ok && ifi.Cond == ssa.Value(c) {
+			if pol {
+				out = append(out, ifi.Block().Succs[0])
+			} else {
+				out = append(out, ifi.Block().Succs[1])
+			}
+		}
+	}
+	return out
 }
